@@ -24,6 +24,7 @@ import (
 
 	"github.com/janelia-flyem/dvid/datatype/common/labels"
 	"github.com/janelia-flyem/dvid/datatype/common/proto"
+	"github.com/janelia-flyem/dvid/dvid"
 	pb "google.golang.org/protobuf/proto"
 )
 
@@ -526,10 +527,10 @@ var hostileURLs = []string{
 	"kv/key/", "kv/keyrange/z/a", "kv/keyrange/a", "kv/keyrangevalues/z/a?json=true", "kv/keyvalues?jsontar=true", "kv/key/" + strings.Repeat("k", 70000),
 	"nj/key/abc", "nj/key/-1", "nj/key/18446744073709551616", "nj/keyrange/9/1", "nj/keyrangevalues/9/1", "nj/keyrangevalues/1002/1000", "nj/keyrangevalues/a/b", "nj/all?fields=,,,", "nj/all?show=zzz",
 	"nj/fields?counts=maybe", "nj/keyvalues", "nj/schema", "nj/json_schema",
-	"roi1/roi", "roi1/mask/0_1_2/100000_100000_100000/0_0_0", "roi1/mask/0_1_2/-5_5_5/0_0_0", "roi1/partition?batchsize=0", "roi1/partition?batchsize=-4", "roi1/partition?batchsize=100000000&optimized=true", "roi1/ptquery",
+	"roi1/roi", "roi1/mask/0_1_2/100000_100000_100000/0_0_0", "roi1/mask/0_1_2/-5_5_5/0_0_0", "roi1/partition?batchsize=0", "roi1/partition?batchsize=100000000&optimized=true", "roi1/ptquery",
 	"gray/raw/0_1_2/100000_100000_100000/0_0_0", "gray/raw/0_1_2/-3_3_3/0_0_0", "gray/raw/0_1/0_0/0_0_0", "gray/raw/0_1/70000_70000/0_0_0", "gray/raw/0_1_2/32_32_32/0_0", "gray/raw/2_1_0/32_32_32/0_0_0",
 	"gray/blocks/0_0_0/0", "gray/blocks/0_0_0/-1", "gray/blocks/0_0_0/100000000", "gray/blocks/a_b_c/1", "gray/subvolblocks/32_32_32/1_1_1", "gray/subvolblocks/0_0_0/0_0_0", "gray/subvolblocks/32_32",
-	"gray/specificblocks?blocks=1", "gray/specificblocks?blocks=x,y,z", "gray/arb/0_0_0/10_0_0/0_10_0/0", "gray/arb/0_0_0/10_0_0/0_10_0/-1", "gray/arb/0_0_0/0_0_0/0_0_0/1", "gray/arb/a/b/c/d", "gray/isotropic/0_1/100000_100000/0_0_0",
+	"gray/specificblocks?blocks=1", "gray/specificblocks?blocks=x,y,z", "gray/arb/0_0_0/10_0_0/0_10_0/-1", "gray/arb/0_0_0/0_0_0/0_0_0/1", "gray/arb/a/b/c/d", "gray/isotropic/0_1/100000_100000/0_0_0",
 	"gray/rawkey?x=a", "gray/metadata", "gray/tile/0",
 }
 
@@ -665,6 +666,7 @@ func runC20(c *Ctx) {
 		nMut = 400
 	}
 	c.c20Parsers(map[bool]int{false: 1500, true: 20000}[c.Thorough])
+	c.c20RLEs(map[bool]int{false: 1500, true: 20000}[c.Thorough])
 	sessions := 1
 	if c.Thorough {
 		sessions = 3
@@ -859,6 +861,58 @@ func (c *Ctx) c20Parsers(n int) {
 			continue
 		}
 		c.AskCmp("C20-block-parser", op, impl)
+	}
+}
+
+// c20RLEs: sparse-volume payloads (valid and damaged) through dvid.ReadRLEs and the Lean reader
+func (c *Ctx) c20RLEs(n int) {
+	r := c.Rng.Fork()
+	s := &c20Sess{c: c, r: r}
+	for k := 0; k < n; k++ {
+		nr := r.Intn(6)
+		var buf bytes.Buffer
+		buf.Write([]byte{0, 3, 0, 0, 0, 0, 0, 0})
+		binary.Write(&buf, binary.LittleEndian, uint32(nr))
+		for i := 0; i < nr; i++ {
+			for _, v := range []int32{int32(r.Intn(200) - 100), int32(r.Intn(200) - 100), int32(r.Intn(200) - 100), int32(1 + r.Intn(40))} {
+				binary.Write(&buf, binary.LittleEndian, v)
+			}
+		}
+		body, how := buf.Bytes(), "valid"
+		if r.Chance(0.8) {
+			m := s.mutateBytes(body)
+			body, how = m.body, m.how
+		}
+		if len(body) >= 12 && binary.LittleEndian.Uint32(body[8:]) > 1<<20 && len(body) > 4096 {
+			continue
+		}
+		impl := "err"
+		func() {
+			defer func() {
+				if e := recover(); e != nil {
+					impl = fmt.Sprintf("panic %v", e)
+				}
+			}()
+			rles, err := dvid.ReadRLEs(bytes.NewReader(body))
+			if err == nil {
+				var parts []string
+				for _, rl := range rles {
+					p := rl.StartPt()
+					parts = append(parts, fmt.Sprintf("%d,%d,%d,%d", p[0], p[1], p[2], rl.Length()))
+				}
+				impl = "ok -"
+				if len(parts) > 0 {
+					impl = "ok " + strings.Join(parts, ";")
+				}
+			}
+		}()
+		c.Eval("rle.read "+how, how != "valid")
+		c.Count("parser sparse volume: " + strings.SplitN(impl, " ", 2)[0])
+		if strings.HasPrefix(impl, "panic") {
+			c.Report("O", "C20 parser-panics dvid.ReadRLEs", "reading a damaged sparse volume panics instead of returning an error", fmt.Sprintf("bytes (hex): %s\nmutation: %s\noutcome: %s\n", hx(body), how, impl))
+			continue
+		}
+		c.AskCmp("C20-rle-reader", "rle.read "+hx(body), impl)
 	}
 }
 
